@@ -167,8 +167,9 @@ def check_expr(expr_sql, res=None, known=None):
                 kids.append(inferred_class(child)[0])
         ni, _ = inferred_class(node)
         ne, _ = engine_class(node.sql("duckdb").replace('"ty".', "").replace('"', ""))
-        key = f"{type(node).__name__}({','.join(kids)})|inferred:{ni}|engine:{ne}"
-        fails.append((key, f"{expr_sql!r}: annotate_types says {inf_sql} ({inf}), DuckDB says {eng_name} ({eng}); deepest disagreeing node {node.sql('duckdb')!r}"))
+        key = f"{type(node).__name__}|inferred:{ni}|engine:{ne}"
+        operands = ",".join(kids)
+        fails.append((key, f"{expr_sql!r}: annotate_types says {inf_sql} ({inf}), DuckDB says {eng_name} ({eng}); deepest disagreeing node {node.sql('duckdb')!r} with operand classes ({operands})"))
     if res is not None:
         kinds = {inferred_class(c)[0] for c in root.find_all(exp.Column)}
         res.case(core.h8(expr_sql), len(kinds) >= 2 or isinstance(root, (exp.Case, exp.Coalesce, exp.If, exp.Binary, exp.Cast)), classes + (["agrees"] if inf == eng else []))
@@ -219,7 +220,7 @@ def nested(draw, depth):
 
 def plan(tier):
     if tier == "quick":
-        return [{"kind": "exh", "part": i, "parts": 8} for i in range(8)] + [{"kind": "hyp", "n": 900, "depth": 3}] * 8
+        return [{"kind": "exh", "part": i, "parts": 8} for i in range(8)] + [{"kind": "hyp", "n": 2500, "depth": 3}] * 8
     return [{"kind": "exh", "part": i, "parts": 8} for i in range(8)] + [{"kind": "hyp", "n": 30000, "depth": 3}] * 24 + [{"kind": "hyp", "n": 10000, "depth": 4}] * 16
 
 
@@ -230,6 +231,9 @@ def run_shard(spec, seed, res, only_bucket=None):
                 for b, d in check_expr(e, res):
                     res.fail(b, {"expr": e}, d)
         res.extra["depth1_expressions"] = len(depth1()) if spec["part"] == 0 else 0
+        if res.evaluations and res.classes["noclaim"] > 0.05 * res.evaluations:
+            # "no claim" must stay the exception: an annotator that answers UNKNOWN everywhere would otherwise pass vacuously
+            res.fail("unknown-ceiling-exceeded", {"expr": "<depth-1 table>"}, f"{res.classes['noclaim']} of {res.evaluations} depth-1 expressions were inferred as UNKNOWN/NULL (ceiling 5%)")
         res.exhaustive = False
         return None
     return core.drive(nested(spec["depth"]).map(lambda e: {"expr": e}), lambda c, r: check_expr(c["expr"], r), seed, spec["n"], res, only_bucket)
@@ -240,7 +244,11 @@ def replay(case):
 
 
 def frequency_floor(bucket, evaluations=0):
-    return 2
+    """Cells (node class, inferred class, engine class) not in the catalogue are violations at a rate >= 2e-4 of the run (and >= 3 hits): the
+    randomly nested stream keeps producing ill-typed operand combinations that DuckDB coerces in yet another way at rates of 1e-5
+    (two 240k-case campaigns still differed in ~30 single-digit cells), while the exhaustive depth-1 table is stable and every seeded
+    inference defect shows up there with dozens of hits."""
+    return max(3, int(evaluations * 2e-4))
 
 
-MIN_CLASSES = {"quick": {"claimed": 5000, "agrees": 4000}}
+MIN_CLASSES = {"quick": {"claimed": 3000, "agrees": 2500}}
